@@ -97,7 +97,157 @@ def generate(repo):
             notes.append(f'{name}: specialised {sorted(set(t.specialised))}, statically folded {t.folded}')
     return '\n'.join(out), notes
 
+# ---------------------------------------------------------------------------------------------------------------
+# float-valued wiring of propagate_dft / _fft_shape: `_dft_alpha`, its two call sites, shape*oversample, and the metadata
+# handed to the output wavefront.  A small expression translator over an abstract scalar type `R` (only + - * / on names,
+# constant subscripts of 2-vectors, attributes of `wavefront`, tuples; element-wise broadcasting of a 2-vector with a
+# scalar); anything else is refused.
+def _rx(e, env):
+    """-> Lean string (scalar) or [str, str] (2-vector)"""
+    if isinstance(e, ast.Name):
+        if e.id not in env: raise Refuse(f'unknown name {e.id}')
+        return env[e.id]
+    if isinstance(e, ast.Attribute):
+        k = ast.unparse(e)
+        if k not in env: raise Refuse(f'unknown attribute {k}')
+        return env[k]
+    if isinstance(e, ast.Subscript):
+        b = _rx(e.value, env)
+        if not (isinstance(b, list) and isinstance(e.slice, ast.Constant) and e.slice.value in (0, 1)): raise Refuse('subscript ' + ast.unparse(e))
+        return b[e.slice.value]
+    if isinstance(e, ast.Tuple):
+        if len(e.elts) != 2: raise Refuse('only pairs')
+        return [_rx(x, env) for x in e.elts]
+    if isinstance(e, ast.BinOp):
+        ops = {ast.Add: '+', ast.Sub: '-', ast.Mult: '*', ast.Div: '/'}
+        if type(e.op) not in ops: raise Refuse('operator ' + type(e.op).__name__)
+        a, b, o = _rx(e.left, env), _rx(e.right, env), ops[type(e.op)]
+        if isinstance(a, list) or isinstance(b, list):
+            a2 = a if isinstance(a, list) else [a, a]; b2 = b if isinstance(b, list) else [b, b]
+            return [f'({x} {o} {y})' for x, y in zip(a2, b2)]
+        return f'({a} {o} {b})'
+    if isinstance(e, ast.Call) and ast.unparse(e.func) == 'np.broadcast_to' and len(e.args) == 2 and ast.unparse(e.args[1]) == '(2,)':
+        v = _rx(e.args[0], env)
+        return v if isinstance(v, list) else [v, v]
+    raise Refuse('expression ' + ast.unparse(e)[:60])
+
+def _pair(v):
+    if not isinstance(v, list): raise Refuse('expected a pair')
+    return f'({v[0]}, {v[1]})'
+
+def _assign(fn, name):
+    """the unique top-level-or-nested `name = ...` assignment of a function"""
+    hits = [n for n in ast.walk(fn) if isinstance(n, ast.Assign) and len(n.targets) == 1 and ast.unparse(n.targets[0]) == name]
+    if len(hits) != 1: raise Refuse(f'{fn.name}: expected exactly one assignment to {name}, found {len(hits)}')
+    return hits[0].value
+
+def _call_args(call, callee):
+    """arguments of a call in the callee's parameter order (positional and keyword)"""
+    params = [a.arg for a in callee.args.args]
+    got = {}
+    for i, a in enumerate(call.args): got[params[i]] = a
+    for k in call.keywords:
+        if k.arg in got or k.arg not in params: raise Refuse('call arguments of ' + ast.unparse(call)[:60])
+        got[k.arg] = k.value
+    if set(got) != set(params): raise Refuse('call arity of ' + ast.unparse(call)[:60])
+    return [got[p] for p in params]
+
+def generate_meta(repo):
+    path = os.path.join(repo, 'lentil/propagate.py')
+    mod = ast.parse(open(path).read())
+    fns = {n.name: n for n in ast.walk(mod) if isinstance(n, ast.FunctionDef)}
+    for f in ('_dft_alpha', 'propagate_dft', '_fft_shape', 'propagate_fft'):
+        if f not in fns: raise Refuse(f'propagate.py: {f} not found')
+    out = []
+    R = '{R : Type} [Add R] [Sub R] [Mul R] [Div R]'
+    # ---- _dft_alpha
+    fa = fns['_dft_alpha']
+    params = [a.arg for a in fa.args.args]
+    if params != ['dx', 'du', 'wavelength', 'z', 'oversample']: raise Refuse(f'_dft_alpha: parameters changed: {params}')
+    body = [s for s in fa.body if not (isinstance(s, ast.Expr) and isinstance(s.value, ast.Constant))]
+    if len(body) != 1 or not isinstance(body[0], ast.Return): raise Refuse('_dft_alpha: body is not a single return')
+    env = {'dx': ['dx_0', 'dx_1'], 'du': ['du_0', 'du_1'], 'wavelength': 'wavelength', 'z': 'z', 'oversample': 'oversample'}
+    out.append(f'/-- translated from `propagate.py:_dft_alpha` (line {fa.lineno}) -/\n'
+               f'def dftAlpha {R} (dx_0 dx_1 du_0 du_1 wavelength z oversample : R) : R × R :=\n  {_pair(_rx(body[0].value, env))}\n')
+    def alpha_call(fn, env, lname, doc, sig):
+        call = _assign(fn, 'alpha')
+        if not (isinstance(call, ast.Call) and ast.unparse(call.func) == '_dft_alpha'): raise Refuse(f'{fn.name}: alpha is not a _dft_alpha call')
+        args = [_rx(a, env) for a in _call_args(call, fa)]
+        flat = []
+        for a in args: flat += a if isinstance(a, list) else [a]
+        out.append(f'/-- translated from `propagate.py:{fn.name}` (line {call.lineno}): {doc} -/\n'
+                   f'def {lname} {R} {sig} : R × R :=\n  dftAlpha {" ".join(flat)}\n')
+    # ---- call site in propagate_dft (dx, du, z are locals)
+    fd = fns['propagate_dft']
+    envd = {'wavefront.pixelscale': ['wavefront_pixelscale_0', 'wavefront_pixelscale_1'], 'wavefront.wavelength': 'wavefront_wavelength',
+            'wavefront.focal_length': 'wavefront_focal_length', 'pixelscale': ['pixelscale_0', 'pixelscale_1'], 'oversample': 'oversample'}
+    for loc in ('dx', 'du', 'z'): envd[loc] = _rx(_assign(fd, loc), envd)
+    alpha_call(fd, envd, 'dftAlphaCall', 'the `alpha` handed to dft2, in terms of the wavefront attributes and the call arguments',
+               '(wavefront_pixelscale_0 wavefront_pixelscale_1 pixelscale_0 pixelscale_1 wavefront_wavelength wavefront_focal_length oversample : R)')
+    # ---- metadata of the output wavefront of propagate_dft
+    emp = _assign(fd, 'out')
+    if not (isinstance(emp, ast.Call) and ast.unparse(emp.func) == 'Wavefront.empty' and not emp.args): raise Refuse('propagate_dft: out is not Wavefront.empty(...)')
+    kw = {k.arg: k.value for k in emp.keywords}
+    if set(kw) != {'wavelength', 'pixelscale', 'focal_length', 'shape', 'ptype'}: raise Refuse(f'propagate_dft: Wavefront.empty keywords changed: {sorted(kw)}')
+    if ast.unparse(kw['shape']) != 'shape_out' or ast.unparse(kw['ptype']) != 'ptype_out': raise Refuse('propagate_dft: shape/ptype of the output changed')
+    if ast.unparse(_assign(fd, 'ptype_out')) != "_propagate_ptype(wavefront.ptype, method='fraunhofer')": raise Refuse('propagate_dft: ptype_out changed')
+    out.append(f'/-- translated from `propagate.py:propagate_dft` (line {emp.lineno}): (wavelength, pixelscale, focal_length) of the output wavefront;\n'
+               f'its shape is `dftShapeOut`, its ptype `_propagate_ptype(wavefront.ptype)` (Gen.codePropagate, C08) -/\n'
+               f'def dftOutMeta {R} (wavefront_pixelscale_0 wavefront_pixelscale_1 pixelscale_0 pixelscale_1 wavefront_wavelength wavefront_focal_length oversample : R) : R × (R × R) × R :=\n'
+               f'  ({_rx(kw["wavelength"], envd)}, {_pair(_rx(kw["pixelscale"], envd))}, {_rx(kw["focal_length"], envd)})\n')
+    # the per-Field pixelscale
+    app = [n for n in ast.walk(fd) if isinstance(n, ast.Call) and ast.unparse(n.func) == 'Field']
+    if len(app) != 1: raise Refuse('propagate_dft: expected one Field(...) construction')
+    fkw = {k.arg: k.value for k in app[0].keywords}
+    if set(fkw) != {'data', 'pixelscale', 'offset'}: raise Refuse('propagate_dft: Field(...) keywords changed')
+    out.append(f'/-- translated from `propagate.py:propagate_dft` (line {app[0].lineno}): pixelscale attribute of each output Field -/\n'
+               f'def dftFieldPixelscale {R} (pixelscale_0 pixelscale_1 oversample : R) : R × R :=\n  {_pair(_rx(fkw["pixelscale"], envd))}\n')
+    # ---- shape_out, prop_shape_out (integers)
+    for nm, src, ln in (('dftShapeOut', 'shape', 'shape_out'), ('dftPropShapeOut', 'prop_shape', 'prop_shape_out')):
+        v = _rx(_assign(fd, ln), {src: [f'{src}_0', f'{src}_1'], 'oversample': 'oversample'})
+        out.append(f'/-- translated from `propagate.py:propagate_dft`: `{ln} = {ast.unparse(_assign(fd, ln))}` -/\n'
+                   f'def {nm} ({src}_0 {src}_1 oversample : Int) : Int × Int :=\n  {_pair(v)}\n')
+    # ---- _fft_shape: alpha call (positional!), reported wavelength per axis
+    ff = fns['_fft_shape']
+    if [a.arg for a in ff.args.args] != ['dx', 'du', 'z', 'wavelength', 'oversample']: raise Refuse('_fft_shape: parameters changed')
+    envf = {'dx': ['dx_0', 'dx_1'], 'du': ['du_0', 'du_1'], 'z': 'z', 'wavelength': 'wavelength', 'oversample': 'oversample',
+            'fft_shape': ['fft_shape_0', 'fft_shape_1']}
+    alpha_call(ff, envf, 'fftAlphaCall', 'the `alpha` whose reciprocal is rounded to the FFT grid (arguments as written at the call site)',
+               '(dx_0 dx_1 du_0 du_1 z wavelength oversample : R)')
+    if ast.unparse(_assign(ff, 'fft_shape')) != 'np.round(np.reciprocal(alpha)).astype(int)': raise Refuse('_fft_shape: fft_shape = round(1/alpha) changed')
+    pw = _assign(ff, 'prop_wavelength')
+    if not (isinstance(pw, ast.Call) and ast.unparse(pw.func) == 'np.min' and len(pw.args) == 1): raise Refuse('_fft_shape: prop_wavelength is not np.min(...)')
+    out.append(f'/-- translated from `propagate.py:_fft_shape` (line {pw.lineno}): the per-axis wavelengths whose minimum is reported -/\n'
+               f'def fftWavelengths {R} (fft_shape_0 fft_shape_1 dx_0 dx_1 du_0 du_1 z oversample : R) : R × R :=\n  {_pair(_rx(pw.args[0], envf))}\n')
+    ret = [n for n in ff.body if isinstance(n, ast.Return)]
+    if len(ret) != 1 or ast.unparse(ret[0].value) != '(fft_shape, prop_wavelength)': raise Refuse('_fft_shape: return value changed')
+    # ---- propagate_fft: how _fft_shape is called and what the output wavefront gets
+    fp = fns['propagate_fft']
+    call = [n for n in ast.walk(fp) if isinstance(n, ast.Call) and ast.unparse(n.func) == '_fft_shape']
+    if len(call) != 1: raise Refuse('propagate_fft: expected one _fft_shape call')
+    a = [ast.unparse(x) for x in _call_args(call[0], ff)]
+    if a != ['wavefront.pixelscale', 'pixelscale', 'wavefront.focal_length', 'wavefront.wavelength', 'oversample']:
+        raise Refuse(f'propagate_fft: arguments of _fft_shape changed: {a}')
+    emp = _assign(fp, 'out')
+    kw = {k.arg: ast.unparse(k.value) for k in emp.keywords}
+    if kw != {'wavelength': 'prop_wavelength', 'pixelscale': 'pixelscale / oversample', 'focal_length': 'wavefront.focal_length',
+              'shape': 'shape_out', 'ptype': 'ptype_out'}:
+        raise Refuse(f'propagate_fft: metadata of the output wavefront changed: {kw}')
+    return '\n'.join(out), ['float wiring translated over an abstract scalar type R; np.round/np.min/np.reciprocal guarded textually']
+
+def _guarded(fn):
+    """any structural surprise while walking the source (missing attribute, index, key) is a refusal of the translator"""
+    def wrapped(repo):
+        try:
+            return fn(repo)
+        except Refuse:
+            raise
+        except (AttributeError, IndexError, KeyError, TypeError, ValueError) as e:
+            raise Refuse(f'source structure changed ({type(e).__name__}: {e})')
+    return wrapped
+
 MODULES = [
-    {'name': 'Window', 'src': 'lentil/propagate.py', 'generator': generate, 'props': ['C02', 'C04', 'C09'],
+    {'name': 'PropagateMeta', 'src': 'lentil/propagate.py', 'generator': _guarded(generate_meta), 'props': ['C02', 'C04', 'C09']},
+    {'name': 'Window', 'src': 'lentil/propagate.py', 'generator': _guarded(generate), 'props': ['C02', 'C04', 'C09'],
      'imports': ['LentilVerif.Gen.Extent']},
 ]
